@@ -78,4 +78,29 @@ example : resolve (mergeAll (initSlot exT exLimit 10 0 2 0 0 0 0 1) [(exN, 30, 1
 example : inReach (initSlot exT exLimit 10 0 2 0 0 0 0 1).p exN.box 30 10 = true := by decide
 example : OverlapQ exT exN.box 0 0 30 10 := by unfold OverlapQ exT exN; refine ⟨?_, ?_, ?_, ?_, ?_, ?_, ?_, ?_⟩ <;> decide +kernel
 
+/-! ### a movement range of no width
+
+`ShiftCollider::initSlot` gives an axis the range `[pos, pos]` whenever the limit rectangle leaves the glyph no room on it (a
+horizontal-only limit, the limit `[0,0,0,0]` of real Awami runs, a glyph on a corner of its limit).  The theorems above speak of sets that
+started with a range of positive width; for a range of no width the set is the single point, `Zones::remove` could never take it away
+(after clamping nothing is left to remove) and `closest` went on offering the excluded point - the glyph was reported resolved where it
+stood, inside its neighbour.  With the test `Zones::remove` starts with since fix (see `known_findings.json`), which `Model/Zones.remove`
+transcribes: once an exclusion strictly covers the point, nothing is offered any more. -/
+theorem zero_width_range_is_emptied (z : Zones) (a b : Int) (origin : Int) (hw : z.pos ≥ z.posm) (ha : a < z.pos) (hb : z.posm < b) :
+    (z.remove a b).excl = [] ∧ (z.remove a b).closest origin = (0, -1) := by
+  have h : z.remove a b = { z with excl := [] } := by
+    unfold Zones.remove
+    rw [if_pos hw, if_pos ⟨ha, hb⟩]
+  rw [h]
+  refine ⟨rfl, ?_⟩
+  unfold Zones.closest Zones.closestBest
+  simp [scan]
+
+/-- and on the sets the other theorems speak of the new test changes nothing -/
+theorem zero_width_test_leaves_wellformed_sets_alone (z : Zones) (a b : Int) (h : ZInv z) : z.remove a b = z.removeCore a b :=
+  remove_eq_core z a b h
+
+example : ((initialise false 5 5 0).remove 0 10).closest 5 = (0, -1) := by decide +kernel
+example : ((initialise false 5 5 0).removeCore 0 10).closest 5 ≠ (0, -1) := by decide +kernel
+
 end GrVerif.Props.C17
